@@ -77,8 +77,8 @@ def run(ctx, col, tier):
         recursion_free(ctx, col, "R-CG", [q], f"recursion-free from {q.split('.', 2)[-1]}")
 
     k = repo.get_def(f"{BASE}._traverse_dfs")
-    frame_discipline(ctx, col, k)
-    forwarders(ctx, col)
+    col.guard(frame_discipline, ctx, col, k)
+    col.guard(forwarders, ctx, col)
 
 
 def frame_discipline(ctx, col, k):
